@@ -881,6 +881,25 @@ func (h *hist) commit(w *world, o op) *failure {
 			}
 		}
 	}
+	// A node shutdown and restart at this block, as far as the snapshot tree is concerned: the diff layers are
+	// journalled (Tree.Journal), and a new tree is loaded from the disk layer plus the journal (snapshot.New). The
+	// new tree must answer for the root like the old one. Only while the history has no forks (the StateDBs of
+	// forks hold layers of the tree that is replaced here).
+	if h.tree != nil && w == h.worlds[0] && len(h.worlds) == 1 && (o.X>>8)&3 == 0 && h.tree.Snapshot(rootH) != nil {
+		if _, err := h.tree.Journal(rootH); err != nil {
+			return h.fail("snapshot-journal-error", "Tree.Journal(root): %v", err)
+		}
+		tree, err := snapshot.New(snapshot.Config{CacheSize: 1, AsyncBuild: false}, h.disk, db.TrieDB(), rootH)
+		if err != nil || tree == nil {
+			return h.fail("snapshot-reload-error", "snapshot.New on the journalled tree: %v", err)
+		}
+		h.tree = tree
+		h.flattens++ // (StateDBs opened before hold layers of the old tree: same exemption as after a flatten)
+		h.st.count("snapshot_trees_reloaded_from_journal", 1)
+		if f := readBack(true, "snapshot-reloaded-from-journal"); f != nil {
+			return f
+		}
+	}
 	s, via, err := h.open(db, root, contViaTree)
 	if err != nil {
 		return h.fail("reopen-error", "state.New(%x) failed after Commit: %v", root[:6], err)
